@@ -123,6 +123,13 @@ def run(ctx):
                     parts = _split_top(m.group(1))
                     if len(parts) == 2:
                         ranges.append((parts[0], parts[1]))
+        # the end of the range is at or after `from`, rounded UP to the unit: an end rounded DOWN (div_euclid, plain
+        # division times the unit) lies at or before `from`, so nothing is ever written
+        for z in zs:
+            for a in z.term["args"]:
+                pa = pr.operand(a)
+                if re.search(r"(div_euclid|div_floor)\(param:from,|Mul\(Div\(param:from,[^()]*(\([^()]*\))*[^()]*\),|BitAnd\(param:from,Not\(", pa) and not re.search(r"div_ceil\(param:from|next_multiple_of\(param:from", pa):
+                    res.fail(Finding("R-ZERO", "R-ZERO/%s/range-end-rounded-down" % f.path, "%s rounds the old length DOWN to its unit for the end of the range to zero (%s): that end is never beyond the old length, so the rest of the sector that holds the old end is never cleared" % (f.path.split("::")[-1], pa[:110]), f, z.term["span"]))
         # the count is the whole range end - from: a constant taken off it (or put on it) is an off-by-N
         for z in zs:
             for a in z.term["args"]:
